@@ -48,7 +48,12 @@ def ord_merge(p, res):
         return
     R = rets[0].value.id
     rdef = defs.get(R)
-    if rdef is not None and src_of(rdef) in ('{}', 'dict()'):
+    first_layer = None
+    if rdef is not None and isinstance(rdef, ast.Call) and isinstance(rdef.func, ast.Name) and rdef.func.id == 'dict' and len(rdef.args) == 1 and not rdef.keywords:
+        # dict(X) is a fresh copy of X: the same as {} followed by update(X)
+        first_layer = rdef.args[0]
+        res.ok('%s = dict(<first layer>) (fresh copy)' % R)
+    elif rdef is not None and src_of(rdef) in ('{}', 'dict()'):
         res.ok('%s = {} (fresh)' % R)
     elif rdef is not None and not isinstance(rdef, (ast.Dict, ast.DictComp)):
         res.bad(F('ORD-MERGE', f, rdef, '%s = %s' % (R, src_of(rdef)), 'the merged dict starts as %s, not as a fresh dict: every update writes into a built-in or caller table' % src_of(rdef)))
@@ -85,6 +90,10 @@ def ord_merge(p, res):
         return (None, raw, None)
 
     seq = []
+    if first_layer is not None:
+        fake = ast.Call(func=ast.Attribute(value=ast.Name(id=R, ctx=ast.Load()), attr='update', ctx=ast.Load()), args=[first_layer], keywords=[])
+        ast.copy_location(fake, rdef)
+        seq.append((layer(first_layer), fake))
     for n in shape.own_nodes(node):
         if isinstance(n, ast.Call) and isinstance(n.func, ast.Attribute) and n.func.attr in ('update', 'setdefault', 'pop', 'clear', 'popitem', '__setitem__'):
             recv = n.func.value
